@@ -39,18 +39,18 @@ pub fn meta() -> CheckMeta {
         level: "exploration",
         rule: "Runs are of three kinds. (a) a generated case (valid program, program with several unused captures, \
 program with several independent run-time faults) is loaded and executed under a control environment and under seeded \
-(hash keys x layout policy) environments, each on fresh threads; ASTs/diagnostics and graphs/errors must be identical. \
+(hash keys x layout policy x heap policy x log level x clock x caller stack depth) environments, each on fresh threads; ASTs/diagnostics and graphs/errors must be identical. \
 (b) one loaded file is driven through a seeded history of 2-12 steps (execute on tree A/B, either mode, a step cancelled at \
-poll k, re-parse at recycled addresses, re-load) and every step must equal an isolated run; caller variables and the AST \
+poll k, re-parse at recycled addresses, re-load, other files, rejected loads; steps started at different stack depths) and every step must equal an isolated run; caller variables and the AST \
 must be unchanged. (c) 2-4 workers share the file and functions; a seeded scheduler (random, round-robin, run-to-completion, \
-PCT, starve) picks every interleaving at poll/tick granularity; each task's result and its own event log must equal the \
+PCT, starve) picks every interleaving at poll/tick granularity and at contended library locks (simulated futex); each task's result and its own event log must equal the \
 isolated run, and isolated references recomputed afterwards must be unchanged. Non-trivial = the case executes at least one \
 statement; distinct = distinct hash of (kind, program, sources, environment or schedule trace).",
         distinct_key: "cases",
         assumptions: vec![
             "syntax-node ids are heap addresses by design: syntax nodes are compared by (kind, byte range, start point); sets of syntax nodes are compared as sets; JSON/attribute maps are compared as maps",
             "generated programs do not render sets of syntax nodes or graph-node references into strings",
-            "interleaving granularity is the poll / tick / task boundary: the library has no atomics, locks, statics or interior mutability reachable from File::execute, so finer races are excluded by the type system",
+            "interleaving granularity is the poll / tick / task boundary plus contended lock acquisitions and the wake-ups that follow them: the library has no atomics, locks, statics or interior mutability reachable from File::execute today, so finer races are excluded by the type system; a race that needs pre-emption between two uncontended synchronisation operations is out of reach",
         ],
         real: vec![
             "tree-sitter-graph parser, checker, strict and lazy interpreters, graph, stdlib functions",
@@ -63,6 +63,7 @@ statement; distinct = distinct hash of (kind, program, sources, environment or s
             "Rust global allocator of simulated threads (exact-size LIFO arena: freed addresses are reused at once)",
             "tree-sitter malloc/calloc/realloc/free (seeded layout policies)",
             "thread scheduler (cooperative, seeded)",
+            "futex system call of scheduled workers (waits and wake-ups on contended library locks are scheduler decisions)",
             "CancellationFlag (SimFlag)",
         ],
         required_probes: vec![
